@@ -69,7 +69,10 @@ func (s *Shape) plain() bool {
 	return s.Kind == "loop" && s.Back == "br" && s.Depth == 0 && s.BT == 0 && s.Nest == "" && s.Body == "" && s.SleepMs == 0 && s.Entry == "export"
 }
 
-const nopResult = 7
+const (
+	nopResult  = 7
+	waitResult = 9
+)
 
 // buildCycle encodes the module that contains the cycle. Exports: go, spin, cycle, nop, g
 // (and _start / a start section for the start entries).
@@ -79,8 +82,9 @@ func buildCycle(s *Shape) []byte {
 	hnop := m.ImportFunc("env", "nop", nil, nil)
 	reenter := m.ImportFunc("env", "reenter", nil, []byte{e.I32})
 	nap := m.ImportFunc("env", "nap", nil, nil)
+	gate := m.ImportFunc("env", "gate", nil, nil)
 	base := m.NumImportedFuncs()
-	fLeaf, fBounded, fF0, fCycle, fSpin, fGo, fNop, fStart, fNapper := base, base+1, base+2, base+5, base+6, base+7, base+8, base+9, base+10
+	fLeaf, fBounded, fF0, fCycle, fSpin, fGo, fNop, fStart, fNapper, fWait := base, base+1, base+2, base+5, base+6, base+7, base+8, base+9, base+10, base+11
 	tVoid := m.AddType(nil, nil)
 	tP1 := m.AddType([]byte{e.I32}, nil)
 	tP2 := m.AddType([]byte{e.I32, e.I64}, []byte{e.I32, e.I64})
@@ -240,6 +244,11 @@ func buildCycle(s *Shape) []byte {
 	if idx := m.AddFunc(nil, nil, nil, e.NewB().Call(nap).Bytes()); idx != fNapper {
 		panic("index plan")
 	}
+	// wait: a terminating call that parks in the host until the harness lets it go
+	if idx := m.AddFunc(nil, []byte{e.I32}, nil, e.NewB().Call(gate).I32Const(waitResult).Bytes()); idx != fWait {
+		panic("index plan")
+	}
+	m.ExportFunc("wait", fWait)
 	m.ExportFunc("go", fGo)
 	m.ExportFunc("spin", fSpin)
 	m.ExportFunc("cycle", fCycle)
@@ -259,6 +268,7 @@ func buildCycle(s *Shape) []byte {
 func buildOuter(s *Shape) []byte {
 	m := &e.Module{}
 	hb := m.ImportFunc("env", "hb", nil, nil)
+	gate := m.ImportFunc("env", "gate", nil, nil)
 	var target uint32
 	if s.Entry == "import" {
 		target = m.ImportFunc("b", "cycle", nil, []byte{e.I32}) // the cycle is in the imported function itself
@@ -272,6 +282,7 @@ func buildOuter(s *Shape) []byte {
 		goFn = m.AddFunc(nil, []byte{e.I32}, nil, e.NewB().Call(target).Bytes())
 	}
 	nop := m.AddFunc(nil, []byte{e.I32}, nil, e.NewB().I32Const(nopResult).Bytes())
+	m.ExportFunc("wait", m.AddFunc(nil, []byte{e.I32}, nil, e.NewB().Call(gate).I32Const(waitResult).Bytes()))
 	m.ExportFunc("go", goFn)
 	m.ExportFunc("nop", nop)
 	return m.Encode()
